@@ -78,9 +78,15 @@ def build_grammar(g, cls=None):
     objs = {}
     for r in g["rules"]:
         objs[r["name"]] = cls(r["name"])
+    if g.get("via_text"):
+        cls.load_grammar(g["via_text"])              # the library's own reader and compiler
+    else:
+        for r in g["rules"]:
+            if r.get("def") is not None and not r.get("alias_of"):
+                cls(r["name"], build_expr(cls, r["def"]))
     for r in g["rules"]:
-        if r.get("def") is not None:
-            cls(r["name"], build_expr(cls, r["def"]))
+        if r.get("alias_of"):
+            cls(r["name"], objs[r["alias_of"]].definition)      # shares the definition OBJECT, as misc.py's imports do
     for r in g["rules"]:
         if r.get("excl") is not None:
             objs[r["name"]].exclude_rule(cls(r["excl"]))
